@@ -114,3 +114,14 @@ def snapshot(root):
                 b = f.read()
             snap[os.path.normpath(os.path.join(rel, fn))] = ("file", len(b), hashlib.sha1(b).hexdigest())
     return snap
+
+
+def is_json_name(fn, pel_name, eid):
+    """<pel file>.<entry id in hex, any zero padding>.json"""
+    if not (fn.startswith(pel_name + ".") and fn.endswith(".json")):
+        return False
+    mid = fn[len(pel_name) + 1:-5]
+    try:
+        return bool(mid) and all(c in "0123456789abcdefABCDEF" for c in mid) and int(mid, 16) == eid
+    except ValueError:
+        return False
